@@ -4,6 +4,7 @@
      snap <cur_0> .. <cur_{W-1}> | <dq_0 base..top> | <dq_1> | ...     cur_w = - | t<N> | cb:t<N>
      move <w> <CreateCF c|CreatePF c|PopOwn|Steal v|TakeJoiner j|SaveCtx|FinishCtx|PutBase|PushTop x|EndCb|RunHand>
      autopop <w>            PopOwn if the hand is empty and the own queue is not
+     passhand <w> <v> <x>   PassBase v; the hand of w must hold x (x = - : the hand must be empty, no move)
      stealfind <w> <x>      Steal from the worker whose queue base is x
      end
    Output per block: "ok <moves> <snaps>" or "FAIL <line> <reason>". *)
@@ -43,6 +44,14 @@ let () =
          let w = int_of_string w in
          let h = (try Stdlib.List.nth (hand !st) w with _ -> None) and q = (try Stdlib.List.nth (dq !st) w with _ -> []) in
          if h = None && q <> [] then apply w PopOwn "PopOwn"
+     | ["passhand"; w; v; x] ->
+         let w = int_of_string w and v = int_of_string v in
+         let h = (try Stdlib.List.nth (hand !st) w with _ -> None) in
+         (match h, x with
+          | None, "-" -> ()
+          | Some y, _ when x <> "-" && ino y = tnum x -> apply w (PassBase (ni v)) (Printf.sprintf "PassBase %d" v)
+          | _, _ -> fail (Printf.sprintf "w%d passes %s but the model's hand holds %s" w x
+                            (match h with None -> "nothing" | Some y -> "t" ^ string_of_int (ino y))))
      | ["stealfind"; w; x] ->
          let w = int_of_string w and x = tnum x in
          let rec find i = function
@@ -58,7 +67,7 @@ let () =
            | ["CreateCF"; c] -> CreateCF (ni (tnum c)) | ["CreatePF"; c] -> CreatePF (ni (tnum c))
            | ["PopOwn"] -> PopOwn | ["Steal"; v] -> Steal (ni (int_of_string v))
            | ["TakeJoiner"; j] -> TakeJoiner (ni (tnum j)) | ["SaveCtx"] -> SaveCtx | ["FinishCtx"] -> FinishCtx
-           | ["PutBase"] -> PutBase | ["PushTop"; x] -> PushTop (ni (tnum x)) | ["EndCb"] -> EndCb | ["RunHand"] -> RunHand
+           | ["PutBase"] -> PutBase | ["PushTop"; x] -> PushTop (ni (tnum x)) | ["EndCb"] -> EndCb | ["RunHand"] -> RunHand | ["PassBase"; v] -> PassBase (ni (int_of_string v))
            | _ -> failwith ("bad move " ^ l)) in
          apply w mv (Stdlib.String.concat " " m)
      | [] -> ()
